@@ -300,6 +300,10 @@ def text_eq(a, b):
             return V.both(V._cmp("==", y.length, x.length), *[elem_eq(x.get(j), y.get(j)) for j in range(x.length)])
     st = cur()
     j = z3.Int(st.fresh_name("q"))
+    same_elems = z3.simplify(a.raw(j) == b.raw(j))
+    if z3.is_true(same_elems):
+        # the two element terms are the same term (texts built the same way from the same parts): no quantifier needed
+        return V._cmp("==", la, lb)
     return V.both(V._cmp("==", la, lb), mk_bool(z3.ForAll([j], z3.Implies(z3.And(0 <= j, j < V._z(la)), a.raw(j) == b.raw(j)))))
 
 
